@@ -79,9 +79,9 @@ MEDDLY::base_evplus_mt::base_evplus_mt(const char* name,
     fx = x_ind.getForest();
     fA = A.getForest();
     fy = y_ind.getForest();
-    MEDDLY_DCASSERT(fx);
-    MEDDLY_DCASSERT(fA);
-    MEDDLY_DCASSERT(fy);
+    if (!fx || !fA || !fy) {
+        throw error(error::FOREST_MISMATCH, __FILE__, __LINE__);
+    }
     // everyone must use the same domain
     if  (       (fx->getDomain() != fy->getDomain())
             ||  (fx->getDomain() != fA->getDomain())  )
@@ -502,6 +502,9 @@ MEDDLY::numerical_operation* MEDDLY::EXPLVECT_MATR_MULT(const dd_edge &xind,
         const dd_edge &A, const dd_edge &yind)
 {
     const forest* fA = A.getForest();
+    if (!fA) {
+        throw error(error::FOREST_MISMATCH, __FILE__, __LINE__);
+    }
     switch (fA->getEdgeLabeling()) {
         case edge_labeling::MULTI_TERMINAL:
             return new VM_evplus_mt("VectMatrMult", xind, A, yind);
@@ -518,6 +521,9 @@ MEDDLY::numerical_operation* MEDDLY::MATR_EXPLVECT_MULT(const dd_edge &xind,
         const dd_edge &A, const dd_edge &yind)
 {
     const forest* fA = A.getForest();
+    if (!fA) {
+        throw error(error::FOREST_MISMATCH, __FILE__, __LINE__);
+    }
     switch (fA->getEdgeLabeling()) {
         case edge_labeling::MULTI_TERMINAL:
             return new MV_evplus_mt("MatrVectMult", xind, A, yind);
